@@ -12,7 +12,7 @@ open Nat
 
 /-- StorePrimes.hpp:84 — the whole-buffer loop: ends with a buffer whose last entry exceeds `limit`; `acc ++ buffer` is still exactly the
     primes from `start` to that entry and everything in `acc` is `≤ limit` -/
-theorem storeLoop1_spec (e : Env) (he : GenSpec e) (start limit : ℕ) (hlim : limit < maxPrime64) :
+theorem storeLoop1_specC (e : Env) (he : GenSpec e) (start limit : ℕ) (hlim : limit < maxPrime64) :
     ∀ fuel (s : St) (acc : List ℕ) (L : ℕ), s.buf.getLast? = some L → PrimesIn (acc ++ s.buf) start L → FwdReady s (L + 1) →
       L + 1 ≤ umax → s.hint ≤ umax → s.start ≤ umax → (∀ x ∈ acc, x ≤ limit) → limit + 1 - L < fuel →
       ∃ s' acc' L', storeLoop1 e limit fuel s acc = .ok (s', acc') ∧ s'.buf.getLast? = some L' ∧ limit < L' ∧
@@ -90,7 +90,7 @@ theorem storePrimes_correct (e : Env) (he : GenSpec e) (vmax start stop : ℕ) (
     obtain ⟨hP0, hr0, hL0u, _⟩ := fwdDone_ready hd hL0
     simp only [h0]
     have hlim : min stop (maxPrime64 - 1) < maxPrime64 := by unfold maxPrime64; omega
-    obtain ⟨s1, acc1, L1, h1, hL1, hgt, hP1, hacc1⟩ := storeLoop1_spec e he start (min stop (maxPrime64 - 1)) hlim
+    obtain ⟨s1, acc1, L1, h1, hL1, hgt, hP1, hacc1⟩ := storeLoop1_specC e he start (min stop (maxPrime64 - 1)) hlim
       (min stop (maxPrime64 - 1) + 2) s0 [] L0 hL0 (by simpa using hP0) hr0 hL0u (by rw [hd.hint]; exact hu) hd.start_le
       (by simp) (by omega)
     simp only [h1]
